@@ -8,7 +8,19 @@ import DnsVerif.Props.C09
 #print axioms DnsVerif.Props.C09.marshal_idempotent
 #print axioms DnsVerif.Props.C09.text_normal_form_partial
 #print axioms DnsVerif.Props.C09.text_normal_form_full_false
+#print axioms DnsVerif.Props.C09.parse_marshal_norm
+#print axioms DnsVerif.Props.C09.compile_marshal_parse_norm
+#print axioms DnsVerif.Props.C09.marshal_idempotent_norm
+#print axioms DnsVerif.Props.C09.parse_yields_struct
+#print axioms DnsVerif.Props.C09.name_writers_normalise
+#print axioms DnsVerif.Props.C09.text_normal_form
+#print axioms DnsVerif.Props.C09.text_normal_form_dns
+#print axioms DnsVerif.Props.C09.asciiPrint_printsAscii
+#print axioms DnsVerif.Props.C09.ok_of_toOption
 #print axioms DnsVerif.Props.C09.rangepoint_text_roundtrip
 #print axioms DnsVerif.Props.C09.accumulator_line_compiles
+#print axioms DnsVerif.Props.C09.sameMultiset_self
+#print axioms DnsVerif.Props.C09.preprocess_preserves_of_rewrite
 #print axioms DnsVerif.Props.C09.preprocess_preserves_compile
+#print axioms DnsVerif.Props.C09.preprocess_preserves_compile_norm
 #print axioms DnsVerif.Props.C09.preprocess_preserves_compile_full_false
